@@ -9,7 +9,9 @@ TRUSTED = [
     "hook H3 (feature dryoc_verif) replaces the entropy source and records every request",
 ]
 
-ENTRIES = ["randombytes_buf", "copy_randombytes", "secretbox_keygen", "secretbox_keygen_inplace", "box_keypair", "box_keypair_inplace",
+ENTRIES = ["copy_randombytes17", "copy_randombytes37", "randombytes_buf21", "stack_gen37", "array_gen20", "vec_gen33",
+           "pwhash_hash_salt32", "pwhash_hash_salt21", "pwhash_hash_salt64",
+           "randombytes_buf", "copy_randombytes", "secretbox_keygen", "secretbox_keygen_inplace", "box_keypair", "box_keypair_inplace",
            "kx_keypair", "kdf_keygen", "auth_keygen", "onetimeauth_keygen", "shorthash_keygen", "generichash_keygen", "sign_keypair",
            "sign_keypair_inplace", "secretstream_keygen", "secretstream_init_push", "box_seal", "pwhash_str",
            "stack_gen32", "stack_gen24", "array_gen32", "vec_gen32", "vec_gen8", "keypair_gen", "keypair_gen_with_defaults",
@@ -17,7 +19,7 @@ ENTRIES = ["randombytes_buf", "copy_randombytes", "secretbox_keygen", "secretbox
            "dryocstream_init_push", "pwhash_hash", "secretbox_nonce_gen", "secretbox_key_gen", "box_nonce_gen", "auth_key_gen",
            "onetimeauth_key_gen", "generichash_key_gen", "stream_key_gen", "kx_keypair_gen"]
 NIGHTLY_ENTRIES = ["heap_gen32", "locked_gen32", "locked_keypair_gen"]
-SLOW = {"pwhash_str": 8, "pwhash_hash": 8}   # divide the call count (Argon2 per call)
+SLOW = {"pwhash_str": 8, "pwhash_hash": 8, "pwhash_hash_salt32": 8, "pwhash_hash_salt21": 8, "pwhash_hash_salt64": 8}   # divide the call count (Argon2 per call)
 
 
 def judge_values(vals):
@@ -48,8 +50,8 @@ def run(tier, seed):
         for k in range(3 if tier == "quick" else 20):
             cases.append(Case("randh %s %s" % (e, hx(rbytes(rng, 64))), cls="hooked/" + e))
         # degenerate sources expose constants hidden behind the draw: all-zero and all-ff entropy
-        cases.append(Case("randh %s %s" % (e, hx(b"\x00" * 64)), cls="hooked/" + e))
-        cases.append(Case("randh %s %s" % (e, hx(bytes(range(1, 65)))), cls="hooked/" + e))
+        cases.append(Case("randh %s %s" % (e, hx(b"\x00" * 96)), cls="hooked/" + e))
+        cases.append(Case("randh %s %s" % (e, hx(bytes(range(1, 97)))), cls="hooked/" + e))
     lines = assign_ids(cases)
     impl = run_engine(runner, lines)
     model = run_engine(driver_path(), lines) if lean["build_ok"] else {}
